@@ -872,3 +872,75 @@ def case_ovr_pad_conv():
 
 
 CASES["ovr_pad_conv"] = case_ovr_pad_conv
+
+
+def case_expand_search():
+    """Bounded search replay for the any-rank obligations of _remove_expand_before_binary_op: every x / y / target of rank <= 3
+    (extents {0, 1, 2, 3} up to rank 2, {1, 2} at rank 3; about 5*10^4 models), in the three annotation modes (constant target; dynamic target with the Expand
+    output annotated; dynamic target with the binary-op output annotated), with static / named / unknown dims.  The real rule set
+    is applied and the result shape is compared with numpy's (rank included)."""
+    import itertools
+    import onnx_ir as ir
+    from onnxscript.rewriter.rules.common import _remove_expand_before_binary_op as R
+    bad = 0
+    shapes = [s for r in range(0, 3) for s in itertools.product((0, 1, 2, 3), repeat=r)] + list(itertools.product((1, 2), repeat=3))
+    names = {0: "Z", 1: "one", 2: "N", 3: "M"}
+    n_models = 0
+    for xs in shapes:
+        for ts in shapes:
+            try:
+                es = np.broadcast_shapes(xs, ts)
+            except ValueError:
+                continue
+            if len(ts) > 3:
+                continue
+            for ys in shapes:
+                try:
+                    out = np.broadcast_shapes(es, ys)
+                except ValueError:
+                    continue
+                if len(xs) + len(ys) + len(ts) > 6:
+                    continue
+                for mode in ("constant", "expand_out", "binary_out"):
+                    for sym in ("static", "named", "unknown"):
+                        def ann(shape):
+                            if sym == "static":
+                                return list(shape)
+                            if sym == "named":
+                                return [names[d] if d != 1 else 1 for d in shape]
+                            return [None if d != 1 else 1 for d in shape]
+                        nodes, inputs, vinfo = [], [vi("x", TensorProto.FLOAT, ann(xs)), vi("y", TensorProto.FLOAT, ann(ys))], []
+                        if mode == "constant":
+                            nodes.append(helper.make_node("Constant", [], ["s"], value=numpy_helper.from_array(np.array(ts, dtype=np.int64), "s")))
+                        else:
+                            inputs.append(vi("s", TensorProto.INT64, [len(ts)]))
+                        nodes += [helper.make_node("Expand", ["x", "s"], ["e"]), helper.make_node("Add", ["e", "y"], ["z"])]
+                        if mode == "expand_out":
+                            vinfo.append(vi("e", TensorProto.FLOAT, ann(es)))
+                        zout = vi("z", TensorProto.FLOAT, ann(out) if mode == "binary_out" else None)
+                        g = helper.make_graph(nodes, "g", inputs, [zout], value_info=vinfo)
+                        m = helper.make_model(g, opset_imports=[helper.make_opsetid("", 18)], ir_version=9)
+                        mm = ir.serde.deserialize_model(m)
+                        n_models += 1
+                        try:
+                            n = R.expand_before_binary_op_rules.apply_to_model(mm)
+                        except Exception as e:  # noqa: BLE001
+                            print(f"x{list(xs)} target{list(ts)} y{list(ys)} ({mode}, {sym}): rule raises {type(e).__name__}: {str(e)[:120]}")
+                            bad += 1
+                            continue
+                        if not n:
+                            continue
+                        try:
+                            after = np.broadcast_shapes(xs, ys)
+                        except ValueError:
+                            after = "invalid"
+                        if after != out:
+                            if bad < 8:
+                                print(f"Add(Expand(x{ann(xs)}, {list(ts)} [{mode}]), y{ann(ys)}): rule applied {n}x; run-time extents x{list(xs)} y{list(ys)}: "
+                                      f"output shape {out} before, {after} after the Expand is removed")
+                            bad += 1
+    print(f"expand_search: {n_models} models, {bad} differ")
+    return bad
+
+
+CASES["expand_search"] = case_expand_search
